@@ -324,7 +324,7 @@ func check(c caseT) (msg string, info infoT) {
 	return "", info
 }
 
-var rec = ev.For("C38", "chunk sizes: every value of [8192,12288) and 2^k+{-2..2} (k=13..24) enumerated for all 11 valid policy x mode combinations, plus rapid-drawn sizes up to 2^24; bodies 0, 1, max-1, max, max+1 (SignAndEncrypt) and a drawn fraction of max; nonces drawn with the policy's length; non-trivial = secured mode (Sign / SignAndEncrypt) and body within 1 of the maximum body size; distinct by (policy, mode, chunk size, body)")
+var rec = ev.For("C38", "chunk sizes: every value of [8192,12288) and 2^k+{-2..2} (k=13..24) enumerated for all 11 valid policy x mode combinations, plus rapid-drawn sizes up to 2^24; bodies 0, 1, max-1, max, max+1 (SignAndEncrypt) and a drawn fraction of max; nonces drawn with the policy's length; plus TestWiring: real client/server channel pairs with drawn (asymmetric) buffer sizes and 0-2 renewals whose active instances must use the maximum body of the chunk size negotiated for their direction; non-trivial = secured mode (Sign / SignAndEncrypt) and body within 1 of the maximum body size (wiring: the four buffer sizes are not all equal); distinct by (policy, mode, chunk size, body)")
 
 func record(c caseT, info infoT, src string) {
 	if info.Skipped {
@@ -505,6 +505,21 @@ func TestReplay(t *testing.T) {
 	}
 	if rp == nil {
 		t.Skip("no VERIF_REPLAY")
+	}
+	if rp.Test == "TestWiring" {
+		var w wiringT
+		if err := json.Unmarshal(rp.Case, &w); err != nil {
+			t.Fatal(err)
+		}
+		fmt.Println("REPLAYED structured")
+		msg, infra := checkWiring(w)
+		if infra != nil {
+			t.Skipf("no verdict: %v", infra)
+		}
+		if msg != "" {
+			t.Fatalf("property C38 violated: %s", msg)
+		}
+		return
 	}
 	var c caseT
 	if err := json.Unmarshal(rp.Case, &c); err != nil {
